@@ -24,8 +24,10 @@ var (
 	actions   = []string{"", "NO ACTION", "CASCADE", "SET NULL", "SET DEFAULT", "RESTRICT"}
 )
 
-func isIntTy(k string) bool  { return k == "integer" || k == "int" || k == "bigint" }
-func isNumTy(k string) bool  { return isIntTy(k) || k == "real" || k == "double" || k == "numeric" || k == "decimal(10,2)" }
+func isIntTy(k string) bool { return k == "integer" || k == "int" || k == "bigint" }
+func isNumTy(k string) bool {
+	return isIntTy(k) || k == "real" || k == "double" || k == "numeric" || k == "decimal(10,2)"
+}
 func isTextTy(k string) bool { return k == "text" || k == "varchar(255)" }
 
 func (g *G) pick(l []string) string { return l[g.r.Intn(len(l))] }
@@ -90,17 +92,6 @@ func (g *G) freshCol(t *Table) string {
 	for k := 0; k < 30; k++ {
 		n := g.pick(colNames)
 		if !t.hasCol(n) {
-			if !g.allowKnown {
-				clash := false
-				for _, o := range t.Cols {
-					if o.Gen != nil && (strings.HasPrefix(o.Name, n) || strings.HasPrefix(n, o.Name)) {
-						clash = true
-					}
-				}
-				if clash {
-					continue
-				}
-			}
 			return n
 		}
 	}
@@ -121,14 +112,7 @@ func (g *G) genExpr(t *Table, strict bool) (Col, bool) {
 		return Col{}, false
 	}
 	c := Col{Name: g.freshCol(t), Type: src.Type, Null: true}
-	if !g.allowKnown { // a generated column whose name is a prefix of an earlier generated column's: known finding
-		for k := 0; k < 20 && prefixClash(t, c.Name); k++ {
-			c.Name = g.freshCol(t)
-		}
-		if prefixClash(t, c.Name) {
-			return Col{}, false
-		}
-	}
+	// (names that are a prefix of another generated column's name are generated too: C01-gen-col-name-prefix is fixed)
 	if strict && !hasStr(strictTys, c.Type) {
 		c.Type = "text"
 	}
